@@ -23,7 +23,7 @@ RULE = ("GFF3 file databases with a depth-4 hierarchy, multi-parent and id-less 
         "and by (n, k, checklines)")
 REQUIRED = ["live-handle comparisons", "history steps applied", "content dumps compared with the model", ".bak compared with pre-operation content",
             "auto-generated keys checked for freshness", "faults injected", "faults injected mid-import (beyond the peek window)",
-            "reopen steps"]
+            "reopen steps", "failpoints fired inside gffutils"]
 ASSUMPTIONS = [
     "relations accumulate: an update adds level-1 rows for Parent values and level-2 rows = compositions of two level-1 "
     "rows of the state after the update; delete removes exactly the rows mentioning the id; a level-2 row whose "
@@ -33,7 +33,7 @@ ASSUMPTIONS = [
     "after a failed update only the .bak file is judged (the statement promises nothing about the main file); the history ends there",
     "meta rows / directives are not part of 'features and relations'; update([]) must leave the whole content dump identical",
 ]
-EXHAUSTIVE_NOTE = "all words over the 7-operation alphabet up to the depth bound; all fault positions 0..n for n in 1..5"
+EXHAUSTIVE_NOTE = "all words over the 7-operation alphabet up to the depth bound; all fault positions 0..n for n in 1..5; failpoints at the 1st/2nd/3rd/5th call of 9 internal functions during an update"
 QUICK_SHARDS = 4
 ALPHABET = "ABCEDRO"
 COLS = ("seqid", "source", "featuretype", "start", "end", "score", "strand", "frame")
@@ -170,6 +170,8 @@ def execute(ctx, case):
     try:
         if case["kind"] == "history":
             history(ctx, case)
+        elif case["kind"] == "failpoint":
+            failpoint(ctx, case)
         else:
             fault(ctx, case)
     finally:
@@ -409,6 +411,114 @@ def fault(ctx, case):
         cleanup(dbfn)
 
 
+FAILPOINTS = ["_populate_from_lines", "_id_handler", "_insert", "_do_merge", "_update_relations", "relations_generator",
+              "_finalize", "_increment_featuretype_autoid", "set_pragmas"]
+_fp = {"target": None, "nth": 0, "count": 0, "fired": False, "installed": False}
+
+
+def _install_failpoints():
+    """Source-free failpoints: a sys.monitoring PY_START callback raises when the n-th call of the chosen gffutils
+    function starts (functions of create.py / interface.py / iterators.py only)."""
+    import sys
+    if _fp["installed"]:
+        return
+    mon = sys.monitoring
+    mon.use_tool_id(5, "gvmon-c10-failpoints")
+
+    def on_start(code, offset):
+        if _fp["target"] is None or code.co_name != _fp["target"] or "gffutils" not in code.co_filename:
+            return mon.DISABLE if _fp["target"] is None or code.co_name != _fp["target"] else None
+        _fp["count"] += 1
+        if _fp["count"] == _fp["nth"] and not _fp["fired"]:
+            _fp["fired"] = True
+            raise Injected("failpoint: %s call #%d" % (code.co_name, _fp["nth"]))
+        return None
+
+    mon.register_callback(5, mon.events.PY_START, on_start)
+    _fp["installed"] = True
+
+
+def _arm(target, nth):
+    import sys
+    _install_failpoints()
+    _fp.update(target=target, nth=nth, count=0, fired=False)
+    sys.monitoring.set_events(5, sys.monitoring.events.PY_START)
+    sys.monitoring.restart_events()
+
+
+def _disarm():
+    import sys
+    _fp["target"] = None
+    sys.monitoring.set_events(5, 0)
+
+
+def failpoint(ctx, case):
+    """An update (or a delete fed by a failing source) is interrupted inside gffutils itself; .bak must hold the
+    complete pre-operation database."""
+    from gffutils.feature import feature_from_line
+
+    salt = case["salt"]
+    db, dbfn, model, text = build_base(ctx, salt)
+    try:
+        # an earlier operation leaves an older .bak behind
+        db.delete("d", make_backup=True)
+        before = dbdump.dump(dbfn)
+        raised = None
+        if case["op"] == "update":
+            batch = [rec("exon", 6000 + 10 * i, 6005 + 10 * i, [["ID", ["f%d" % i]], ["Parent", ["b"]]]) for i in range(3)]
+            batch.append(rec("gene", 100, 900, [["ID", ["a"]], ["Name", ["A1", "A2"]], ["Note", ["again"]]]))   # collides: merge path
+            batch.append(rec("exon", 7000, 7005, [["Parent", ["b"]]]))                                          # auto-generated key
+            feats = [feature_from_line(line(r)) for r in batch]
+            _arm(case["target"], case["nth"])
+            try:
+                db.update(feats, merge_strategy="merge", make_backup=True)
+            except Injected as ex:
+                raised = ex
+            except Exception as ex:
+                raised = ex
+            finally:
+                _disarm()
+        else:
+            ids = sorted(model.feats)[:4]
+
+            def src():
+                for i, k in enumerate(ids):
+                    if i == case["nth"]:
+                        raise Injected("delete source fails at %d" % i)
+                    yield k
+            try:
+                db.delete(src(), make_backup=True)
+            except Injected as ex:
+                raised = ex
+        fired = _fp["fired"] if case["op"] == "update" else raised is not None
+        if not fired:
+            ctx.mon("failpoints never reached (not evidence)")
+            return
+        ctx.mon("failpoints fired inside gffutils")
+        ctx.mon("failpoint fired: %s" % (case["target"] if case["op"] == "update" else "delete source"))
+        if raised is None:
+            ctx.violation(case, {"why": "an exception raised inside gffutils during %s was swallowed" % case["op"]})
+            return
+        ctx.mon(".bak compared with pre-operation content")
+        bak = dbfn + ".bak"
+        if not os.path.exists(bak):
+            ctx.violation(case, {"why": "no .bak file after an interrupted %s" % case["op"]})
+            return
+        d = dbdump.diff(before, dbdump.dump(bak))
+        if d:
+            ctx.violation(case, {"why": ".bak differs from the pre-operation database after a failure inside gffutils",
+                                 "diff": d, "failpoint": [case.get("target"), case["nth"]], "op": case["op"]})
+            return
+        del raised
+    finally:
+        _disarm()
+        try:
+            db.conn.close()
+        except Exception:
+            pass
+        cleanup(dbfn)
+
+
 def nontrivial(word):
     seen = False
     for op in word:
@@ -449,6 +559,25 @@ def run(ctx):
                 case = {"kind": "fault", "salt": (ctx.seed + j) % 50, "n": n, "k": k, "checklines": ck}
                 execute(ctx, case)
                 ctx.case(("fault", n, k, ck), k < n, sample=case, cls="fault position")
+    run_failpoints(ctx)
+
+
+def run_failpoints(ctx):
+    j = 0
+    for target in FAILPOINTS:
+        for nth in (1, 2, 3, 5):
+            j += 1
+            if not ctx.mine(j):
+                continue
+            case = {"kind": "failpoint", "op": "update", "target": target, "nth": nth, "salt": (ctx.seed + j) % 50}
+            execute(ctx, case)
+            ctx.case(("failpoint", target, nth), True, sample=case, cls="failpoint inside gffutils")
+    for nth in range(0, 4):
+        j += 1
+        if ctx.mine(j):
+            case = {"kind": "failpoint", "op": "delete", "nth": nth, "salt": (ctx.seed + j) % 50}
+            execute(ctx, case)
+            ctx.case(("failpoint-delete", nth), True, sample=case, cls="delete with a failing source")
 
 
 MANIFEST = {
